@@ -137,7 +137,7 @@ Proof.
   unfold write_ProofOptions, read_ProofOptions. cbn [po_num_queries po_blowup_factor po_grinding_factor
     po_field_extension po_fri_folding_factor po_fri_remainder_max_degree].
   rt_next rt_u8. rt_next rt_u8. rt_next rt_u8. rt_next rt_FieldExtension. rt_next rt_u8.
-  rewrite <- (app_nil_l rest) at 1. rewrite app_comm_cons. rt_next rt_u8. cbn [app].
+  rt_next rt_u8.
   rewrite H2, H5, H7. cbn [negb orb].
   repeat match goal with
          | |- context [?a =? ?b] => destruct (Z.eqb_spec a b); [lia|]
@@ -330,8 +330,10 @@ Lemma narrow_OodFrame_refuted :
   exists f, len (ood_evaluations f) = 2 ^ 16 /\ read_OodFrame (write_OodFrame f) <> Ok (f, []).
 Proof.
   exists (mkOod [] [] (repeat 0 (Z.to_nat 65536))). split.
-  - unfold len. cbn [ood_evaluations]. rewrite repeat_length. reflexivity.
-  - vm_compute. discriminate.
+  - unfold len. cbn [ood_evaluations]. rewrite repeat_length, Z2Nat.id by lia. reflexivity.
+  - intros H.
+    apply (f_equal (fun r => match r with Ok (f', _) => len (ood_evaluations f') | _ => -1 end)) in H.
+    vm_compute in H. discriminate H.
 Qed.
 
 (* --------------------------------------------------------------------------------- FriProofLayer, FriProof *)
@@ -360,7 +362,7 @@ Proof.
   rt_next rt_u8.
   erewrite bind_ok by (apply (rt_many _ _ _ rt_FriProofLayer); exact Hl).
   rt_next (rt_blob 2).
-  rewrite <- (app_nil_l rest) at 1. rewrite app_comm_cons. rt_next rt_u8. reflexivity.
+  rt_next rt_u8. reflexivity.
 Qed.
 
 (* narrow_FriProof: number of layers <= log2(2^32) and remainder of at most 256 elements of at most 48 bytes *)
@@ -376,8 +378,10 @@ Proof.
   exists (mkFri (repeat (mkFL [7] []) 256) [] 0). split; [|split].
   - cbn [fri_layers]. apply repeat_length.
   - cbn [fri_layers]. apply Forall_forall. intros x Hx. apply repeat_spec in Hx. subst.
-    unfold wf_FriProofLayer, len. cbn. lia.
-  - vm_compute. discriminate.
+    unfold wf_FriProofLayer, len. cbn [fl_values fl_paths length Z.of_nat Pos.of_succ_nat]. lia.
+  - intros H.
+    apply (f_equal (fun r => match r with Ok (p', _) => Z.of_nat (length (fri_layers p')) | _ => -1 end)) in H.
+    vm_compute in H. discriminate H.
 Qed.
 
 (* ---------------------------------------------------------------------------------------------- Proof *)
